@@ -25,8 +25,11 @@ type Prog struct {
 	Ops  []Op                   `json:"ops"`
 	Term string                 `json:"term"` // bindings, fresh, null, nonobject, throw, loop, emitbad, retbad, ifeq
 	Kvs  map[string]interface{} `json:"kvs,omitempty"`
-	K    string                 `json:"k,omitempty"` // ifeq: the binding compared
-	J    interface{}            `json:"j,omitempty"` // ifeq: the scalar it must equal
+	// TouchProps: the ECMAScript rendering also assigns to a top-level member of _.props (no effect in the model:
+	// the script gets its own top-level copy, so neither the caller's map nor a later execution sees it)
+	TouchProps bool        `json:"touch_props,omitempty"`
+	K          string      `json:"k,omitempty"` // ifeq: the binding compared
+	J          interface{} `json:"j,omitempty"` // ifeq: the scalar it must equal
 }
 
 type Act struct {
@@ -47,6 +50,9 @@ func jsText(x interface{}) string {
 func (p *Prog) JS() string {
 	var sb strings.Builder
 	sb.WriteString("var b = _.bindings;\n")
+	if p.TouchProps {
+		sb.WriteString("if (_.props) { _.props.touched = (_.props.touched || 0) + 1; delete _.props.mid; }\n")
+	}
 	for _, op := range p.Ops {
 		switch op.Kind {
 		case "emit":
@@ -401,6 +407,8 @@ func (g *G) act(guard bool) *Act {
 	if g.chance(0.3) {
 		a.Native = true
 		a.ExeOnError = g.chance(0.5)
+	} else if g.chance(0.15) {
+		a.P.TouchProps = true
 	}
 	return a
 }
